@@ -296,7 +296,8 @@ pub fn run(args: &[String]) {
                 }
             }
             let before = w.ts[t].clone();
-            w.send(t, command_of(&st).unwrap());
+            let cmd = crate::replay::retain_script(&w, t, command_of(&st).unwrap());
+            w.send(t, cmd);
             rec.step(&w, Some(t), &st, Some(&before));
             writeln!(tf, "{}", trace_event(run, seq, &w, Some(t), &st)).unwrap();
             if w.hung {
